@@ -158,6 +158,85 @@ def _case(**kw):
     return base
 
 
+def h_dispatch(eng, nchars):
+    """io.get_molecule picks the reader by the file-name suffix: a name whose suffix is ".cif" in any letter case is mmCIF
+    (the pinned code lower-cases the suffix) and is read by the mmCIF reader, everything else by the PDB reader; is_cif
+    says which.  The suffix is 1-4 characters, each a selector over 'cCiIfFpdbe.'; the readers
+    and the file lookup are recording stubs."""
+    from pdb2pqr import io
+
+    from .c17 import _SymPath
+
+    # the characters are selectors (concretised by forking), so that a table-driven dispatch (dict keyed by suffix) runs natively
+    alpha = "cCiIfFpdbe."
+    ext = "".join(alpha[eng.choice(f"ext{k}", len(alpha))] for k in range(nchars))
+    name = "dir.v2/1abc." + ext
+    called = []
+
+    def reader(tag):
+        def read(file_):
+            called.append(tag)
+            return ["record"], []
+
+        return read
+
+    class _CifReached(Exception):
+        pass
+
+    class _F:
+        """stands for the opened input: the PDB reader pulls lines, the mmCIF reader hands it to pdbx.load"""
+
+        def __init__(self):
+            self.lines = ["ATOM      1  N   ALA A   1      11.104   6.134  -6.504  1.00  0.00           N  \n"]
+
+        def readline(self):
+            if "pdb" not in called:
+                called.append("pdb")
+            return self.lines.pop(0) if self.lines else ""
+
+        def close(self):
+            pass
+
+    class _Cif:
+        read_cif = staticmethod(reader("cif"))
+
+    class _Pdb:
+        read_pdb = staticmethod(reader("pdb"))
+
+    class _Pdbx:
+        @staticmethod
+        def load(f):
+            called.append("cif")
+            raise _CifReached()
+
+    from pdb2pqr import cif as cif_mod
+
+    is_cif = None
+    # two layers of stubs: the readers as io looks them up at call time, and - for a dispatch table bound at import time,
+    # which holds the real functions - the first thing each real reader does with the file
+    with patched((io, "get_pdb_file", lambda p: _F()), (io, "cif", _Cif), (io, "pdb", _Pdb), (cif_mod, "pdbx", _Pdbx)):
+        try:
+            _lst, is_cif = io.get_molecule(name)
+        except _CifReached:
+            pass
+    # oracle: the suffix is what follows the last dot of the final component (if that dot is not its last character)
+    is_cif_name = False
+    tail = None
+    for i in range(nchars - 1, -1, -1):
+        if bool(ext[i] == "."):
+            tail = ext[i + 1 :]
+            break
+    else:
+        tail = ext
+    if len(tail) == 0:
+        tail = None  # name ends in a dot: pathlib reports no suffix
+    if tail is not None and len(tail) == 3:
+        is_cif_name = bool(And(core.Or(tail[0] == "c", tail[0] == "C"), core.Or(tail[1] == "i", tail[1] == "I"), core.Or(tail[2] == "f", tail[2] == "F")))
+    eng.check(called == ["cif" if is_cif_name else "pdb"], "reader-follows-suffix", note=f"file name {str(name)!r} (suffix letters decided on this path: cif-in-any-case = {is_cif_name}) was handed to {called}")
+    if is_cif is not None:
+        eng.check(bool(is_cif) == is_cif_name, "is-cif-flag-follows-suffix",     note=f"is_cif = {is_cif} for a name whose suffix is{'' if is_cif_name else ' not'} .cif")
+
+
 def obligations(tier):
     cases = []
     # inside the region where the pinned reader is expected to work
@@ -191,13 +270,17 @@ def obligations(tier):
     for c in cases:
         tag = "-".join(f"{k}={'+'.join(map(str, v)) if isinstance(v, list) else v}" for k, v in c.items() if k not in ("charge_marker",))
         obs.append(Obligation(f"atom_site-{tag}", h_atom_site, c, group="atom_site", time_cap=1500))
+    for n in (3,) if tier == "quick" else (1, 2, 3, 4):
+        obs.append(Obligation(f"dispatch-suffix-{n}-chars", h_dispatch, dict(nchars=n), group="dispatch", time_cap=1500, max_paths=200000))
     return obs
 
 
 def encoded():
     from pdb2pqr import cif, pdb
 
-    return [cif.atom_site, cif.count_models, pdb.ATOM.__init__, pdb.HETATM.__init__, pdb.MODEL.__init__]
+    from pdb2pqr import io
+
+    return [cif.atom_site, cif.count_models, pdb.ATOM.__init__, pdb.HETATM.__init__, pdb.MODEL.__init__, io.get_molecule]
 
 
 META = dict(
